@@ -13,7 +13,8 @@ Names2 == {"a", "b"}
 Simple == { SVar(n, V) : n \in Names2 } \cup { SVar(n, None) : n \in Names2 }
           \cup { SExpr(Asg(n, V)) : n \in Names2 } \cup { SPrint(Id(n)) : n \in Names2 }
           \cup { SVar(n, Bin("+", Id(m), V)) : n \in Names2, m \in Names2 }
-          \cup { SVarList(<<SVar("a", V), SVar("b", V)>>), SVarList(<<SVar("b", V), SVar("a", None)>>) }   \* comma lists declare too     \* the initialiser is evaluated before the name is bound
+          \cup { SVarList(<<SVar("a", V), SVar("b", V)>>), SVarList(<<SVar("b", V), SVar("a", None)>>),
+                 SVarList(<<SVar("a", V), SVar("b", Bin("+", Id("a"), V))>>) }     \* a later initialiser of a list sees the earlier names of the list   \* comma lists declare too     \* the initialiser is evaluated before the name is bound
 CallF == SExpr(Call(Id("f"), <<>>))
 Once(body) == SBlock(<< SVar("q", Lit(N(0))),
                         SWhile(Bin("<", Id("q"), Lit(N(1))), SBlock(<<SExpr(Asg("q", Bin("+", Id("q"), Lit(N(1)))))>> \o body)) >>)
@@ -98,12 +99,19 @@ Fixed == <<
   << SFun("f", <<"n">>, << SIf(Bin("==", Id("n"), NumL(0)), SBlock(<< SExpr(Asg("f", NumL(7))), SPrint(Id("f")), SReturn(NumL(0)) >>), None),
                           SVar("r", Call(Id("f"), <<Bin("-", Id("n"), NumL(1))>>)), SPrint(Bin("==", Id("f"), NumL(7))), SReturn(Plus(Id("r"), NumL(1))) >>),
      SPrint(Call(Id("f"), <<NumL(2)>>)), SPrint(Call(Id("f"), <<NumL(1)>>)) >>,
+  \* the activation is ONE scope: parameters, the function's own name and the body's top-level declarations share it
+  << SFun("fp", <<"p">>, << SPrint(Id("p")), SVar("p", Plus(Id("p"), NumL(1))), SPrint(Id("p")) >>), SExpr(Call(Id("fp"), <<NumL(1)>>)), SPrint(NumL(99)) >>,
+  << SFun("fo", <<>>, << SVar("fo", NumL(1)), SPrint(Id("fo")) >>), SExpr(Call(Id("fo"), <<>>)), SPrint(NumL(99)) >>,
+  << SFun("fq", <<"p", "q">>, << SBlock(<< SVar("p", NumL(5)), SPrint(Id("p")) >>), SVar("r", Id("p")), SPrint(Id("r")), SVar("q", NumL(7)) >>), SExpr(Call(Id("fq"), <<NumL(1), NumL(2)>>)), SPrint(NumL(99)) >>,
+  << SVar("a", NumL(10)), SBlock(<< SVarList(<<SVar("a", NumL(1)), SVar("b", Plus(Id("a"), NumL(1)))>>), SPrint(Id("b")) >>),
+     SFun("fl", <<"n">>, << SVarList(<<SVar("k", Bin("*", Id("n"), NumL(2))), SVar("m", Plus(Id("k"), Id("n")))>>), SReturn(Id("m")) >>), SPrint(Call(Id("fl"), <<NumL(3)>>)),
+     SFor(SVarList(<<SVar("x", NumL(5)), SVar("y", Bin("*", Id("x"), Id("x")))>>), Bin("<", Id("x"), NumL(6)), Asg("x", Plus(Id("x"), NumL(1))), SBlock(<<SPrint(Id("y"))>>)) >>,
   << SBlock(<< SVar("a", NumL(1)), SFun("ga", <<>>, <<SReturn(Id("a"))>>), SBlock(<< SVar("a", NumL(2)), SPrint(Call(Id("ga"), <<>>)), SPrint(Id("a")) >>), SPrint(Call(Id("ga"), <<>>)) >>),
      SBlock(<< SVar("a", NumL(3)), SFun("ga", <<>>, <<SReturn(Id("a"))>>), SPrint(Call(Id("ga"), <<>>)) >>) >>
 >>
 All == SelectSeq(SeqN(Budget, MaxDepth, FALSE), LAMBDA x : InDomainSeq(x, {})) \o Randoms \o Fixed
 Cases == All
-Programs == [i \in 1..Len(Cases) |-> TagV(LayoutProg(Cases[i], 1), 0)]
+Programs == TLCEval([i \in 1..Len(Cases) |-> TagV(LayoutProg(Cases[i], 1), 0)])
 FamProgOf(i) == Programs[i]
 Init == \E i \in 1..Len(Programs) : InitSem(i, <<>>, FALSE)
 Next == SemNext
